@@ -753,7 +753,8 @@ func (multi *MultiEpoch) processSlotTransactions(
 		}
 	}
 
-	filterOutTxn := func(tx solana.Transaction, meta any) bool {
+	// keepTxn reports whether the transaction satisfies the filter, i.e. has to be sent.
+	keepTxn := func(tx solana.Transaction, meta any) bool {
 		if filter == nil {
 			return true
 		}
@@ -844,7 +845,7 @@ func (multi *MultiEpoch) processSlotTransactions(
 					return status.Errorf(codes.Internal, "Failed to parse transaction meta: %v", err)
 				}
 
-				if !filterOutTxn(*txn, meta) {
+				if keepTxn(*txn, meta) {
 
 					txResp := new(old_faithful_grpc.TransactionResponse)
 					txResp.Transaction = new(old_faithful_grpc.Transaction)
@@ -960,7 +961,7 @@ func (multi *MultiEpoch) processSlotTransactions(
 							return
 						}
 
-						if !filterOutTxn(tx, meta) {
+						if keepTxn(tx, meta) {
 							txResp := new(old_faithful_grpc.TransactionResponse)
 							txResp.Transaction = new(old_faithful_grpc.Transaction)
 							{
